@@ -162,7 +162,7 @@ class SigmaRuleBase:
         if rule_id is not None:
             try:
                 rule_id = UUID(rule_id)
-            except ValueError:
+            except (ValueError, AttributeError, TypeError):
                 errors.append(
                     sigma_exceptions.SigmaIdentifierError(
                         "Sigma rule identifier must be an UUID", source=source
